@@ -243,6 +243,7 @@ pub fn random_transport(plan: &mut ClientPlan, rng: &mut Rng) {
     }
     plan.pt.status_codes = rng.below(4) as u8;
     plan.pt.script_order = if rng.pct(35) { 1 + rng.below(3) as u8 } else { 0 };
+    plan.pt.decorated = if rng.pct(30) { 1 + rng.below(3) as u8 } else { 0 };
     plan.pt.intermediate_timeout = if rng.pct(25) { Some(*rng.pick(&[0u8, 1, 30, 99])) } else { None };
     limit_delays(plan);
     plan.pt.abort_extras = if rng.pct(30) { 1 + rng.below(4) as u8 } else { 0 };
@@ -1086,6 +1087,27 @@ impl Check for ClientCheck {
                         },
                     }])
                 }));
+                // the legal long forms: intermediate statuses with display texts, aborts with an extended
+                // error code and a text behind the result code - same card, same classification
+                fams.push(Family::new("all_256_abort_codes_decorated", 256 * 3, true, |i, _| {
+                    let mut p = ClientPlan::plain(vec![OpSpec::ReadCard {
+                        card: CardOutcome { pre: (i % 2 * 2) as u8, kind: CardKind::Abort((i % 256) as u8), delay_ms: 0 },
+                    }]);
+                    p.pt.decorated = 1 + (i / 256) as u8;
+                    p
+                }));
+                {
+                    let cards = all_cards();
+                    let n = cards.len() as u64;
+                    fams.push(Family::new("card_grid_behind_decorated_statuses", n * 2, true, move |i, _| {
+                        let mut p = ClientPlan::plain(vec![
+                            OpSpec::ReadCard { card: CardOutcome { pre: 1 + (i % 3) as u8, kind: cards[(i % n) as usize].clone(), delay_ms: 0 } },
+                            OpSpec::ReadCard { card: CardOutcome { pre: 0, kind: cards[(i % n) as usize].clone(), delay_ms: 0 } },
+                        ]);
+                        p.pt.decorated = 1 + 2 * (i / n) as u8;
+                        p
+                    }));
+                }
                 let n = match tier {
                     Tier::Quick => 200_000,
                     Tier::Thorough => 5_000_000,
@@ -1235,6 +1257,13 @@ impl Check for ClientCheck {
                 fams.push(Family::new("abort_behind_packets_in_unusual_order", 9 * 256 * 3, true, |i, _| {
                     let mut p = abort_exchange_plan(i / 768, (i % 256) as u8, 3, 2);
                     p.pt.script_order = 1 + ((i / 256) % 3) as u8;
+                    p
+                }));
+                // aborts in the long form (TLV container with extended error code and text behind the code),
+                // behind intermediate statuses that carry display texts
+                fams.push(Family::new("every_exchange_x_256_codes_decorated", 9 * 256 * 2, true, |i, _| {
+                    let mut p = abort_exchange_plan(i / 512, (i % 256) as u8, 1, 0);
+                    p.pt.decorated = 2 + ((i / 256) % 2) as u8;
                     p
                 }));
                 // the same on a later connection: the terminal closed the first one once Feig::new was through
